@@ -74,14 +74,14 @@ def gen_source_unit(sc, sidecar_path, repo):
     fn_name = '%s_source' % op
     header = '// extracted: %s chars %d..%d (line %d) sha256=%s\n// replacements: %s\n' % (
         sc['file'], ex.span[0], ex.span[1], rxprep.line_of(src, ex.span[0]), ex.sha256, json.dumps(ex.replacements))
-    f = header + ''.join(a + '\n' for a in sc.get('fn_attrs', [])) + 'fn %s(%s)\n    requires\n%s    ensures\n%s{\n' % (fn_name, ', '.join(params), _fmt_list(req), _fmt_list(ens))
+    f = header + ''.join(a + '\n' for a in sc.get('fn_attrs', [])) + 'fn %s%s(%s)\n    requires\n%s    ensures\n%s{\n' % (fn_name, sc.get('generics', ''), ', '.join(params), _fmt_list(req), _fmt_list(ens))
     if sc.get('proof_pre'):
         f += '    proof { %s }\n' % subst(sc['proof_pre'])
     f += '    let _unit: () = /*BEGIN-EXTRACTED*/ %s /*END-EXTRACTED*/;\n' % body_txt
     if sc.get('proof'):
         f += '    proof { %s }\n' % subst(sc['proof'])
     f += '}\n'
-    twin = 'fn %s_twin(%s)\n    requires\n%s    ensures false,\n{\n}\n' % (fn_name, ', '.join(params), _fmt_list(req))
+    twin = 'fn %s_twin%s(%s)\n    requires\n%s    ensures false,\n{\n}\n' % (fn_name, sc.get('generics', ''), ', '.join(params), _fmt_list(req))
     prelude = open(os.path.join(VERIF, 'models', 'prelude.rs')).read()
     text = prelude + '\nverus! {\n// ---- specification (contracts/%s) ----\n%s\n// ---- extracted from /repo ----\n%s\n} // verus!\nfn main() {}\n' % (
         os.path.basename(sidecar_path), sc.get('spec', ''), f)
@@ -107,7 +107,22 @@ def gen_multi_unit(sc, sidecar_path, repo):
     except (AnchorLost, LexError) as e:
         raise UnitError('anchor', str(e))
     observers = sc['observer']
-    captures = sc.get('captures', {})
+    captures = dict(sc.get('captures', {}))
+    cap_pos = {}
+    if sc.get('captures_from_fn'):
+        fnh = sk.helpers.get(sc['captures_from_fn'])
+        if fnh is None:
+            raise UnitError('anchor', 'nested fn %s not found' % sc['captures_from_fn'])
+        k = 0
+        for (pname, _pt), ty in zip(fnh.params, sc['capture_types']):
+            k += 1
+            cap_pos['$c%d' % k] = pname
+            if ty:
+                captures[pname] = ty
+    def capsub(t):
+        for ph, nm in sorted(cap_pos.items(), key=lambda kv: -len(kv[0])):
+            t = t.replace(ph, nm)
+        return t
     cells = sc.get('cells', {})
     tout = sc.get('out', 'Item')
     hist_t = sc['hist']
@@ -152,6 +167,11 @@ def gen_multi_unit(sc, sidecar_path, repo):
             raise UnitError('not_extractable', '%s: %s' % (fn_name, e))
         pn = [p for p, _ in ex.params]
         def subst(t):
+            t = capsub(t)
+            if fn_helper:
+                for k in range(len(pn), 0, -1):
+                    t = t.replace('$%d' % k, pn[k - 1])
+                return t
             t = t.replace('$serial', pn[0]) if pn else t
             if len(pn) > 1:
                 t = t.replace('$x', pn[1]).replace('$e', pn[1])
@@ -213,6 +233,32 @@ def gen_multi_unit(sc, sidecar_path, repo):
             sk_problems.append('helper closure `%s` has no contract' % hname)
             continue
         emit('%s_%s' % (op, hname), cl, hc['param_types'], hc, is_helper=True, fn_helper=hname in sk.fn_helpers)
+    # start: the statements of the create-closure that run at subscription time after the controller exists (e.g. the first
+    # `do_subscribe(1, count, ..)` of retry) are extracted as one more obligation instead of being white-listed
+    st_c = sc.get('start')
+    if st_c:
+        todo = [t for t, txt in zip(sk.unknown_toks, sk.unknown) if not any(re.sub(r'\s+', '', a) in re.sub(r'\s+', '', txt) for a in allowed_unknown)]
+        if len(todo) != 1:
+            sk_problems.append('start: expected exactly one statement after StreamController::new besides the recognised ones, found %d' % len(todo))
+        else:
+            unknown = []
+            sk_problems[:] = [p_ for p_ in sk_problems if not p_.startswith('unrecognised statements in the create-closure')]
+            cl0 = rxprep.Closure(todo[0], [], todo[0], False)
+            scap = st_c.get('captures', {})
+            try:
+                ex0 = rxprep.rewrite_body(cl0, sk, src, op, scap, helper_sigs)
+            except NotExtractable as e:
+                raise UnitError('not_extractable', '%s_start: %s' % (op, e))
+            params0 = ['%s: %s' % (c, t) for c, t in scap.items()] + ['sctl: &mut SctlModel<%s>' % tout]
+            req0 = ['old(sctl).wf()', 'old(sctl).sub@', 'old(sctl).out@ =~= Seq::<Ev<%s>>::empty()' % tout, 'old(sctl).aux@ =~= Seq::<int>::empty()'] + st_c.get('requires', [])
+            f0 = '// extracted (start): %s chars %d..%d (line %d) sha256=%s\n// replacements: %s\nfn %s_start(%s)\n    requires\n%s    ensures\n%s{\n    let _unit: () = /*BEGIN-EXTRACTED*/ { %s; } /*END-EXTRACTED*/;\n%s}\n' % (
+                sc['file'], ex0.span[0], ex0.span[1], rxprep.line_of(src, ex0.span[0]), ex0.sha256, json.dumps(ex0.replacements),
+                op, ', '.join(params0), _fmt_list(req0), _fmt_list(st_c.get('ensures', [])), ex0.text,
+                ('    proof { %s }\n' % st_c['proof']) if st_c.get('proof') else '')
+            fns.append(f0)
+            twins.append('fn %s_start_twin(%s)\n    requires\n%s    ensures false,\n{\n}\n' % (op, ', '.join(params0), _fmt_list(req0)))
+            meta.append({'fn': '%s_start' % op, 'file': sc['file'], 'line': rxprep.line_of(src, ex0.span[0]), 'span': list(ex0.span),
+                         'sha256': ex0.sha256, 'replacements': ex0.replacements, 'loops': 0})
     # init
     ic = sc.get('init', {})
     lets = []
